@@ -414,13 +414,13 @@ package core
 //@ ghost scriptErr bool gate
 //@ ghost lastLoc *Location
 //@ ghost lastControl *Control
-//@ extern (*github.com/robertkrimen/otto.Otto).Run
+//@ extern (github.com/robertkrimen/otto.Otto).Run
 //@   ghost-ensures ran && lastRunErr == result1
 //@   also-modifies ran, lastRunErr
-//@ extern (*github.com/robertkrimen/otto.Otto).Compile
+//@ extern (github.com/robertkrimen/otto.Otto).Compile
 //@   ghost-ensures lastCompileErr == result1
 //@   also-modifies lastCompileErr
-//@ extern (*github.com/robertkrimen/otto.Otto).Set
+//@ extern (github.com/robertkrimen/otto.Otto).Set
 //@   ghost-ensures sets == old(sets) + 1
 //@   also-modifies sets
 //@ func (*Context).GetLoc
